@@ -49,7 +49,7 @@ def rule_quant(E, R):
         return R.cannot(rule, LOGIC, "anchor not found")
     # Quantifier over a direct IndexExpr: Ok(Array) -> reduce, Err -> false
     found = False
-    for n, st in walk_arms(h["body"]):
+    for n, st in sem.sem_walk(E, h):
         if n.get("k") == "Match" and arm_variants(st, "QuantifierArgExpr") == ["IndexExpr"]:
             sc = strip(n["scrut"])
             if sc.get("k") == "MethodCall" and sc["m"] == "execute":
@@ -71,7 +71,7 @@ def rule_quant(E, R):
     R.check(found, rule, LOGIC, "quantifier over a value expression found", where=h["span"])
     # Quantifier over a logical expression: reduce the vector result
     ok = False
-    for n, st in walk_arms(h["body"]):
+    for n, st in sem.sem_walk(E, h):
         if n.get("k") == "MethodCall" and n["m"] == "reduce_bool_iter" and arm_variants(st, "QuantifierArgExpr") == ["Logical"]:
             root, ch = chain(n["args"][0])
             vec_names = set()
